@@ -106,4 +106,12 @@ def same_value(ctx, a, b):
         if sx.is_sym(a) or sx.is_sym(b):
             return True, a == b
         return bool(a) == bool(b), True
-    return True, ctx.equal(a, b)
+    if sx.is_sym(a) or sx.is_sym(b):
+        # implementations fold length-dependent constants in binary64 (e.g. (1-a)**(n-1) * (1-a)**-(n-1-i)): equality is asked within
+        # a relative 1e-7 (DESIGN 2.7 rule 4); a real dependence on other candles moves the value by far more for some input
+        d = a - b
+        sa = sx.sabs(a) if sx.is_sym(a) else abs(a)
+        sb = sx.sabs(b) if sx.is_sym(b) else abs(b)
+        tol = 1e-7 * (1.0 + sa + sb)
+        return True, (d <= tol) & (d >= -tol)
+    return True, ctx.equal(a, b, tol=1e-7)
